@@ -756,6 +756,23 @@ func (e *Env) call(x ECall) Binding {
 			return Binding{Term{fmt.Sprintf("(and (>= (rootid (sbase %s)) %s) (< (rootid (sbase %s)) %s))", p.T.S, e.old.st.alloc.S, p.T.S, e.st.alloc.S), SBool}, types.Typ[types.Bool]}
 		}
 		evalFail("fresh() on sort %s", p.T.Sort)
+	case "isnew":
+		// isnew(x): x (pointer or slice) refers to an object allocated by this function activation
+		p := arg(0)
+		b := p.T
+		if p.T.Sort == SSlice {
+			b = sliceBase(p.T)
+		}
+		return Binding{Term{fmt.Sprintf("(>= (rootid %s) alloc@0)", b.S), SBool}, types.Typ[types.Bool]}
+	case "samearray":
+		a, b := arg(0), arg(1)
+		return Binding{eq(sliceBase(a.T), sliceBase(b.T)), types.Typ[types.Bool]}
+	case "offsetof":
+		a := arg(0)
+		return Binding{sliceOff(a.T), types.Typ[types.Int]}
+	case "samebase":
+		a, b := arg(0), arg(1)
+		return Binding{Term{fmt.Sprintf("(and (= (sbase %s) (sbase %s)) (= (soff %s) (soff %s)))", a.T.S, b.T.S, a.T.S, b.T.S), SBool}, types.Typ[types.Bool]}
 	case "allocated":
 		p := arg(0)
 		return Binding{Term{fmt.Sprintf("(< (rootid %s) %s)", p.T.S, e.st.alloc.S), SBool}, types.Typ[types.Bool]}
